@@ -202,7 +202,7 @@ def extra_jobs(m, tier='quick', q3=True):
     for c in range(ncfg):
         act = m.active_set(c)
         for d in range(1, m.n):
-            job(id='C.%s.subf.c%d.d%d' % (m.name, c, d), entry='step_substitute_forever', key=[c, d, d, 1], props=['C04', 'C01', 'C03'], quick_for=['C04'], tier=tier if c == d % ncfg else 'thorough',
+            job(id='C.%s.subf.c%d.d%d' % (m.name, c, d), entry='step_substitute_forever', key=[c, d, d, 1], props=['C04', 'C01', 'C03', 'C11'], quick_for=['C04', 'C11'], tier=tier if c == d % ncfg else 'thorough',
                 carriers=[r'R_<.*>::processTransitions', r'GuardControlT<.*>::cancelPendingTransitions'], case_key='%s/substitute in every round/cfg=%d/dest=%d' % (m.name, c, d), **base)
             for g in range(1, m.n):
                 for is_entry in (1, 0):
@@ -294,6 +294,10 @@ for c in range(M_PLAN.count(0)):
                     carriers=[r'FullControlT<.*>::updatePlan', r'C_<.*>::deepUpdatePlans', r'FullControlBaseT<.*>::succeed', r'FullControlBaseT<.*>::fail', r'PlanDataT<.*>::clearStatuses'],
                     case_key='plan/cfg=%d/shape=%d/actor=%d/%s' % (c, shape, actor, 'succeed' if action == 1 else 'fail'))
 machine_jobs(M_PLAN, upd_kinds_quick=(0,))
+M_PLAN2 = Machine('plan2', 'tier_c/m_plan2.cpp', [-1, 0, 0, 2, 2, 4, 4], ['C', 'L', 'C', 'L', 'C', 'L', 'L'], unwind=16)
+for mark in (0, 1, 2):
+    job(id='C.plan2.nested.outer%d' % mark, tu=M_PLAN2.tu, entry='step_plan_nested', key=[mark], props=['C06', 'C01'], unwind=16, objbits=12, timeout=900,
+        carriers=[r'C_<.*>::deepUpdatePlans', r'FullControlT<.*>::updatePlan', r'R_<.*>::succeed'], case_key='nested plans/outer head mark=%d' % mark)
 
 # ------------------------------------------------------------------ C14: payloads (resumable machine with PayloadT<int32_t>)
 M_PAY = Machine('payload', 'tier_c/m_resumable.cpp', [-1, 0, 0, 2, 2, 0], ['C', 'L', 'C', 'L', 'L', 'L'], defs={'VM_PAYLOAD': None})
@@ -329,3 +333,80 @@ M_UTILN = Machine('utiln', 'tier_c/m_util.cpp', [-1, 0, 0, 2, 2, 4, 4, 2, 7, 7],
 for region in (2, 4):
     job(id='C.utiln.utilize_nested.r%d' % region, tu=M_UTILN.tu, defs=M_UTILN.defs, entry='step_utilize_nested', key=[region], props=['C12', 'C01', 'C02', 'C11'], unwind=22, objbits=12, timeout=900,
         carriers=[r'C_<.*>::deepReportUtilize', r'O_<.*>::deepReportUtilize', r'OS_<.*>::wideReportUtilize', r'C_<.*>::deepRequestUtilize'], case_key='nested utility/utilize region %d' % region)
+
+# ------------------------------------------------------------------ C11: request queue beyond capacity (known finding)
+for m in (M_RES, M_NEST):
+    job(id='C.%s.overrun' % m.name, tu=m.tu, defs=m.defs, entry='step_queue_overrun', props=['C11'], unwind=m.unwind, objbits=12, timeout=900, safety_always=True,
+        carriers=[r'R_<.*>::changeTo', r'DynamicArrayT<.*>::emplace'], case_key='%s/capacity+1 queued requests' % m.name)
+
+# ------------------------------------------------------------------ C15: same contracts under every feature set and both header flavours
+def c15_machine(name, defs, flavour, tier='quick'):
+    m = Machine(name, 'tier_c/m_resumable.cpp', [-1, 0, 0, 2, 2, 0], ['C', 'L', 'C', 'L', 'L', 'L'], defs=defs)
+    base = dict(tu=m.tu, defs=m.defs, unwind=12, objbits=12, timeout=900, flavour=flavour, count_all_as='C15')
+    job(id='C15.%s.init' % name, entry='proof_init', props=['C15'], tier=tier, carriers=[], case_key='%s/init' % name, **base)
+    job(id='C15.%s.exit_enter' % name, entry='proof_exit_enter', props=['C15'], tier=tier, carriers=[], case_key='%s/exit+enter' % name, **base)
+    for d in range(1, m.n):
+        job(id='C15.%s.imm.change.d%d' % (name, d), entry='step_immediate', key=[0, d], props=['C15'], tier=tier, carriers=[], case_key='%s/immediate change dest=%d' % (name, d), **base)
+        job(id='C15.%s.upd.d%d' % (name, d), entry='step_update', key=[1, 3, 0, d], props=['C15'], tier=tier if d in (1, 4) else 'thorough', carriers=[], case_key='%s/update cfg 1, issuer 3, change dest=%d' % (name, d), **base)
+c15_machine('all_single', {}, 'single'); c15_machine('all_dev', {}, 'dev')
+c15_machine('none_single', {'VM_FEATURES': 0}, 'single'); c15_machine('plans_serial_single', {'VM_FEATURES': 1}, 'single'); c15_machine('history_utility_single', {'VM_FEATURES': 2}, 'single')
+c15_machine('none_dev', {'VM_FEATURES': 0}, 'dev', tier='thorough'); c15_machine('plans_serial_dev', {'VM_FEATURES': 1}, 'dev', tier='thorough'); c15_machine('history_utility_dev', {'VM_FEATURES': 2}, 'dev', tier='thorough')
+for tu, defs in (('tier_c/m_resumable.cpp', {}), ('tier_c/m_ortho.cpp', {}), ('tier_c/m_util.cpp', {}), ('tier_c/m_plan.cpp', {}), ('tier_a/tasklist.cpp', {'CAP': 4}), ('tier_a/arrays.cpp', {'CAP': 4, 'CAP2': 3}),
+                 ('tier_a/bits.cpp', {'VP_N': 17}), ('tier_a/random.cpp', {}), ('tier_b/registry.cpp', {}), ('tier_b/plans.cpp', {'VP_TCAP': 3}), ('tier_c/m_resumable.cpp', {'VM_FEATURES': 0})):
+    job(id='C15.ir_equal.%s%s' % (tu.split('/')[1][:-4], '' if not defs else '.' + '_'.join('%s%s' % kv for kv in sorted(defs.items()))), tu=tu, defs=defs, entry='-', mode='ir_equal', props=['C15'], carriers=[],
+        case_key='flavour IR equality/%s' % tu)
+# Tier A under the development flavour
+for tu, defs, entries, uw in (('tier_a/tasklist.cpp', {'CAP': 3}, ('proof_emplace', 'proof_remove', 'proof_clear'), 6), ('tier_a/bits.cpp', {'VP_N': 9}, ('proof_ba_index', 'proof_bits_view'), 18),
+                              ('tier_a/random.cpp', {}, ('proof_x256plus', 'proof_uniform'), 6), ('tier_a/arrays.cpp', {'CAP': 2, 'CAP2': 3}, ('proof_da_bulk',), 6)):
+    for e in entries:
+        job(id='C15.dev.%s.%s' % (tu.split('/')[1][:-4], e[6:]), tu=tu, defs=defs, entry=e, props=['C15'], flavour='dev', count_all_as='C15', unwind=uw, unwindset={'verif_havoc.0': 4096}, objbits=10, carriers=[], case_key='dev flavour/%s/%s' % (tu, e))
+
+# ------------------------------------------------------------------ quick-tier selection per property (every job stays in the thorough tier of all its properties)
+# (regex over job id, properties for which the job is part of the QUICK check); first match wins; jobs not matched keep their own quick_for
+import re as _re
+QUICK_TABLE = [
+    (r'^C\.(resumable)\.(init|exit_enter|reset|cfg_count)$', None),                       # None = quick for every property of the job
+    (r'^C\.(nested|ortho|select|plan)\.(init|exit_enter|reset|cfg_count)$', ['C01', 'C02', 'C03', 'C05']),
+    (r'^C\.resumable\.imm\.',            ['C01', 'C02', 'C03', 'C04', 'C13', 'C11']),
+    (r'^C\.nested\.imm\.',               ['C01', 'C02', 'C03']),
+    (r'^C\.select\.imm\.',               ['C01', 'C02']),
+    (r'^C\.ortho\.imm\.(change|resume)', ['C01', 'C03', 'C13', 'C11']),
+    (r'^C\.ortho\.imm\.',                ['C02']),
+    (r'^C\.plan\.imm\.',                 []),
+    (r'^C\.(resumable|ortho)\.upd\.c\d+\.none$', ['C01', 'C02', 'C04', 'C11']),
+    (r'^C\.\w+\.upd\.c\d+\.none$',       ['C02']),
+    (r'^C\.plan\.upd\.',                 []),
+    (r'^C\.nested\.upd\.c\d+\.i\d+\.(change)\.',    ['C02']),
+    (r'^C\.nested\.upd\.c\d+\.i\d+\.',             []),
+    (r'^C\.select\.upd\.c\d+\.i\d+\.(select)\.',  ['C02']),
+    (r'^C\.select\.upd\.c\d+\.i\d+\.',             []),
+    (r'^C\.ortho\.upd\.c[024]\.i\d+\.',             ['C02']),
+    (r'^C\.ortho\.upd\.c\d+\.i\d+\.',              []),
+    (r'^C\.resumable\.q2\.',              []),
+    (r'^C\.plan\.c\d',                   ['C06']),
+    (r'^C\.plan2\.',                     ['C06']),
+    (r'^C\.util',                        ['C12']),
+    (r'^C\.payload\.',                   ['C14']),
+    (r'^C\.log_',                        ['C16']),
+    (r'^C\.\w+\.order_',                 ['C05']),
+    (r'^C\.\w+\.overrun$',               ['C11']),
+    (r'^B\.plans\.',                     ['C07', 'C11', 'C14']),
+    (r'^B\.registry\.',                  None),
+    (r'^C10\.',                          ['C10']),
+    (r'^C15\.',                          ['C15']),
+    (r'^C19\.pool\.cap[24]\.',           None),
+    (r'^C19\.pool\.',                    ['C19']),
+    (r'^C19\.array\.cap(2_3|4_3)',       None),
+    (r'^C19\.array\.',                   ['C19']),
+    (r'^C18\.bitarray\.n(9|17)\.',       None),
+    (r'^C18\.bitarray\.',                ['C18']),
+    (r'^C18\.stream\.c31\.',             None),
+    (r'^C18\.stream\.',                  ['C18']),
+    (r'^C20\.',                          ['C20']),
+]
+for _j in JOBS:
+    for _pat, _q in QUICK_TABLE:
+        if _re.search(_pat, _j['id']):
+            if _q is None: _j.pop('quick_for', None)
+            else: _j['quick_for'] = _q
+            break
